@@ -30,6 +30,8 @@
 #include <stdlib.h>
 #include <string.h>
 #include <time.h>
+#include <fcntl.h>
+#include <signal.h>
 #include <unistd.h>
 
 #define MAXC 4
@@ -239,6 +241,43 @@ static int s_event_text(const struct ds_event *e, char *out) {
 
 /* the programs must follow the reference discipline (each client owns a reference while it uses the scheduler and
  * ends owning none) and schedule every task at most once; anything else is a malformed case, not a test */
+/* Wall-clock watchdog per case: a hang that never reaches a schedule point (an endless loop inside the library) is
+ * invisible to detsched.  A case normally takes milliseconds; after WATCHDOG_S seconds the handler reports and leaves.
+ * Every such exit is recorded in the file named by TSCHED_HANG_FILE (one byte per hang); once HANG_LIMIT hangs are on
+ * record the remaining cases are not run any more (each would cost another WATCHDOG_S seconds), they only say so. */
+#define WATCHDOG_S 8
+#define HANG_LIMIT 3
+static void s_on_alarm(int sig) {
+    (void)sig;
+    static const char msg[] = "P MONITOR wall-clock watchdog: no progress for 8 s (hang outside any schedule point)\n";
+    ssize_t r = write(1, msg, sizeof(msg) - 1);
+    (void)r;
+    const char *f = getenv("TSCHED_HANG_FILE");
+    if (f) {
+        int fd = open(f, O_WRONLY | O_CREAT | O_APPEND, 0644);
+        if (fd >= 0) {
+            r = write(fd, "h", 1);
+            close(fd);
+        }
+    }
+    _exit(3);
+}
+
+static int s_hangs_on_record(void) {
+    const char *f = getenv("TSCHED_HANG_FILE");
+    if (!f) {
+        return 0;
+    }
+    int fd = open(f, O_RDONLY);
+    if (fd < 0) {
+        return 0;
+    }
+    char buf[64];
+    ssize_t n = read(fd, buf, sizeof(buf));
+    close(fd);
+    return n > 0 ? (int)n : 0;
+}
+
 static int s_programs_ok(void) {
     int seen[MAXT] = {0};
     for (int c = 0; c < s_nclients; ++c) {
@@ -293,6 +332,14 @@ static void s_run_case(void) {
         }
     }
     long base_blocks = hc_live_blocks();
+    if (s_hangs_on_record() >= HANG_LIMIT) {
+        printf("P MONITOR not run: %d earlier cases of this run hung\n", HANG_LIMIT);
+        fflush(stdout);
+        return;
+    }
+    fflush(stdout);
+    signal(SIGALRM, s_on_alarm);
+    alarm(WATCHDOG_S);
 
     struct ds_config cfg;
     memset(&cfg, 0, sizeof(cfg));
@@ -318,6 +365,7 @@ static void s_run_case(void) {
     cfg.max_steps = 20000;
     ds_init(&cfg);
     int rc = ds_run(s_main, NULL);
+    alarm(0);
 
     char buf[128], wb[16];
     size_t nev = ds_event_count();
